@@ -23,8 +23,8 @@
    [OutOfFuel] has exactly two sources, the two loops of curve.rs without a
    structural bound: the Bezier subdivision stack and the theta loop.  If
    both return, the curve is a value ([curve_L1_done_if]).  The theta loop
-   returns after at most two additions as soon as the atan2 of the libm
-   record has its values in [-pi, pi] ([theta_loop_done]); no such fact is
+   returns after at most one addition as soon as the atan2 of the libm
+   record has its values in [-pi, pi] (Proofs/ThetaLoop.v); no such fact is
    needed for "never panics". *)
 From RM Require Import Model.ControlPoints Model.Curve Gen.Generated
      Proofs.BezierRefine Proofs.PathFacts Proofs.LengthFacts Proofs.CurveRefine.
@@ -154,20 +154,23 @@ Qed.
 Section Arc.
   Variable lm : Libm.
   Variable f : bool.
-  Hypothesis theta_good : forall ts te, good f (theta_loop ts te).
 
-  Lemma circular_arc_properties_good a b c : good f (circular_arc_properties lm a b c).
+  Lemma circular_arc_properties_good :
+    (forall ts te, good f (theta_loop ts te)) ->
+    forall a b c, good f (circular_arc_properties lm a b c).
   Proof.
-    unfold circular_arc_properties.
+    intros theta_good a b c. unfold circular_arc_properties.
     destruct (S.le _ S.eps); [exact I|].
     destruct (arc_centre_g _ _ _ _ _ _ _ _ _ _ _) as [ccx ccy].
     apply good_obind; [apply theta_good|].
     intros te _. destruct (S.lt _ S.zero); exact I.
   Qed.
 
+  Hypothesis arc_good : forall a b c, good f (circular_arc_properties lm a b c).
+
   Lemma approximate_circular_arc_good a b c : good f (approximate_circular_arc lm a b c).
   Proof.
-    unfold approximate_circular_arc. apply good_obind; [apply circular_arc_properties_good|].
+    unfold approximate_circular_arc. apply good_obind; [apply arc_good|].
     intros [pr|] _; [|exact I].
     destruct (arc_subpoint_cap <=? arc_sub_points lm pr)%Z; exact I.
   Qed.
@@ -185,7 +188,7 @@ Section Path.
   Variable Inv : B -> Prop.
   Hypothesis bezier_good : forall path sub b, Inv b -> sub <> [] ->
     good f (bezier path sub b) /\ forall path' b', bezier path sub b = Done (path', b') -> Inv b'.
-  Hypothesis theta_good : forall ts te, good f (theta_loop ts te).
+  Hypothesis arc_good : forall a b c, good f (circular_arc_properties lm a b c).
 
   Definition good3 (o : outcome (list Pos * F64 * B)) : Prop :=
     good f o /\ forall path opt b, o = Done (path, opt, b) -> Inv b.
@@ -215,7 +218,7 @@ Section Path.
     - (* Linear *) apply good3_done; exact Hb.
     - (* PerfectCurve *)
       destruct sub as [|a [|m [|c [|x t]]]]; try (apply bez3_good; assumption).
-      pose proof (approximate_circular_arc_good lm f theta_good a m c) as Ha.
+      pose proof (approximate_circular_arc_good lm f arc_good a m c) as Ha.
       destruct (approximate_circular_arc lm a m c) as [[arc|]| |]; cbn [obind].
       + apply good3_done; exact Hb.
       + apply bez3_good; assumption.
@@ -287,7 +290,7 @@ Section Curve.
   Section Level.
     Variable f : bool.
     Hypothesis bezier_good : forall path sub, sub <> [] -> good f (approximate_bezier_L1 fuel path sub tt).
-    Hypothesis theta_good : forall ts te, good f (theta_loop ts te).
+    Hypothesis arc_good : forall a b c, good f (circular_arc_properties lm a b c).
 
     Lemma calculate_path_L1_good mode pts : good f (calculate_path_L1 lm fuel mode pts).
     Proof.
@@ -298,7 +301,7 @@ Section Curve.
                        pts (map pc_pos pts) [] D.zero tt)).
       { apply cpath_loop_good; try lia; try exact I.
         - intros path sub [] _ Hne. split; [apply bezier_good; exact Hne|auto].
-        - exact theta_good.
+        - exact arc_good.
         - apply map_length. }
       destruct H as [H _]. apply good_obind; [exact H|].
       intros [[path opt] u] _. exact I.
@@ -316,7 +319,7 @@ Section Curve.
   Proof.
     intros mode pts e. apply np_iff. apply (curve_L1_good true).
     - intros path sub Hne. apply approximate_bezier_L1_np. exact Hne.
-    - exact theta_loop_np.
+    - apply circular_arc_properties_good. exact theta_loop_np.
   Qed.
 
   Corollary curve_L1_outcome mode pts e :
@@ -331,7 +334,18 @@ Section Curve.
   Proof.
     intros Hb Ht. apply good_false_iff. apply curve_L1_good.
     - intros path sub Hne. apply good_false_iff. exact (Hb path sub Hne).
-    - intros ts te. apply good_false_iff. exact (Ht ts te).
+    - apply circular_arc_properties_good. intros ts te. apply good_false_iff. exact (Ht ts te).
+  Qed.
+
+  (* the same with the condition on the arcs instead of all theta loops *)
+  Theorem curve_L1_done_if_arc mode pts e :
+    (forall path sub, sub <> [] -> exists r, approximate_bezier_L1 fuel path sub tt = Done r) ->
+    (forall a b c, exists r, circular_arc_properties lm a b c = Done r) ->
+    exists c, curve_L1 lm fuel mode pts e = Done c.
+  Proof.
+    intros Hb Ha. apply good_false_iff. apply curve_L1_good.
+    - intros path sub Hne. apply good_false_iff. exact (Hb path sub Hne).
+    - intros a b c. apply good_false_iff. exact (Ha a b c).
   Qed.
 
   (* the code level, for any well-formed buffers *)
